@@ -61,6 +61,8 @@ SPEC = dict(
             client_valid=P(1200, 12000, 3, 8, q_secs=40, t_secs=420),
             client_badlen=P(1500, 12000, 2, 4, q_secs=40, t_secs=420),
             client_bytes=P(2500, 25000, 3, 8, q_secs=40, t_secs=420),
+            server_lengths=P(250, 2500, 2, 4, q_secs=40, t_secs=420),
+            client_lengths=P(1500, 15000, 1, 4, q_secs=40, t_secs=420),
             client_caps=P(1500, 15000, 2, 4, q_secs=40, t_secs=420),
             loopback_server=P(10, 100, 2, 4, q_secs=60, t_secs=420),
             loopback_client=P(40, 300, 1, 2, q_secs=60, t_secs=420),
